@@ -5,7 +5,7 @@
 
   Python                                                 model
   -----------------------------------------------------  ---------------------------------------
-  LOCALS (P, PP, Sum, Q, One, Zero, the variable names)   eval (.kw _), eval (.name _)
+  LOCALS (P, PP, Sum, Q, One, Zero, TARGET_DOMAIN, names)  eval (.kw _), eval (.name _)
   Variable.__pos__/__neg__/__invert__ (+ CF overrides)    unop
   Variable/CounterfactualVariable.intervene (`@`)         varIntervene
   Distribution.intervene / joint / given (`@ & |`)        distIntervene / andOp / orOp
@@ -21,7 +21,7 @@
   `Err.internal "unsupported"` marks Python behaviour that is deliberately NOT modelled (objects that are
   not DSL expressions flowing through untyped code, e.g. `One() * A`); the harness never generates it.
   This file is self-contained on purpose (the `expr` family models the same constructors in
-  Y0.Model.Dsl for C10/C11/C13); see the reconciliation note in Y0/Props/C12.lean.
+  Y0.Model.Dsl for C10/C11/C13); `C12.productSafe_agrees` reconciles the two models of `Product.safe`.
   Core Lean only.
 -/
 import Y0.Model.PyParse
@@ -270,12 +270,15 @@ def hintVars : Val → E (List Var)
   | .tuple xs => xs.mapM asVar
   | _ => .error (typeError "not a variable or an iterable of variables")
 
+/-- the left operand of `|` / `&`: a variable (a distribution over it) or a distribution -/
+def asDist (what : String) : Val → E (List Var × List Var)
+  | .var v => .ok ([v], [])
+  | .dist c p => .ok (c, p)
+  | _ => .error (typeError what)
+
 /-- `Variable.given` / `Distribution.given` (`|`) -/
 def orOp (a b : Val) : E Val := do
-  let (c, p) ← (match a with
-    | .var v => pure ([v], ([] : List Var))
-    | .dist c p => pure (c, p)
-    | _ => throw (typeError "unsupported operand type(s) for |"))
+  let (c, p) ← asDist "unsupported operand type(s) for |" a
   match b with
   | .dist c2 p2 =>
     if !p2.isEmpty then .error (typeError "can not be given a distribution that has conditionals")
@@ -287,10 +290,7 @@ def orOp (a b : Val) : E Val := do
 
 /-- `Variable.joint` / `Distribution.joint` (`&`) -/
 def andOp (a b : Val) : E Val := do
-  let (c, p) ← (match a with
-    | .var v => pure ([v], ([] : List Var))
-    | .dist c p => pure (c, p)
-    | _ => throw (typeError "unsupported operand type(s) for &"))
+  let (c, p) ← asDist "unsupported operand type(s) for &" a
   let cs ← hintVars b
   let d ← mkDist (upgradeOrdering (c ++ cs)) p
   pure (.dist d.1 d.2)
@@ -422,6 +422,7 @@ def eval : Ast → E Val
   | .kw .Q => .ok .qClass
   | .kw .One => .ok .oneClass
   | .kw .Zero => .ok .zeroClass
+  | .kw .TargetDomain => .ok (.var Print.targetDomain)
   | .tuple xs => do pure (.tuple (← evalList xs))
   | .un op a => do unop op (← eval a)
   | .bin op l r => do
@@ -538,6 +539,56 @@ def simple : Expr → Bool
 def simpleFactors : List Expr → Bool
   | [] => true
   | f :: fs => !isFrac f && simple f && simpleFactors fs
+end
+
+/-! ### construction trees that mention a name once per distribution (`namesOnce`)
+
+The quantifier of C12: "each distribution mentioning a variable name at most once", extended to every list the builders
+normalise as a set: `@ (…)` / `P[…]` subscript lists, `Sum[…]` ranges, `Q[…](…)` (co)domains.  Purely syntactic: a
+predicate on the construction tree, decided without evaluating it. -/
+
+/-- pairwise distinct -/
+def distinct : List Name → Bool
+  | [] => true
+  | x :: xs => !xs.contains x && distinct xs
+
+mutual
+/-- the variable names a tree WRITES at distribution level: a name, a marked/subscripted name (`+A`, `A @ …`: the
+subscripts are not mentions of the distribution), `a | b`, `a & b`, a tuple; expression-level trees mention none -/
+def names : Ast → List Name
+  | .name n => [n]
+  | .un _ a => names a
+  | .bin .matmul a _ => names a
+  | .bin .bor a b => names a ++ names b
+  | .bin .band a b => names a ++ names b
+  | .bin _ _ _ => []
+  | .tuple xs => namesL xs
+  | .kw .TargetDomain => [Print.targetName]
+  | .kw _ => []
+  | .call _ _ => []
+  | .sub _ _ => []
+def namesL : List Ast → List Name
+  | [] => []
+  | a :: as => names a ++ namesL as
+end
+
+mutual
+/-- every argument list of a call (`P(…)`, `PP[π](…)`, `Q[…](…)`), every `a | b`, `a & b`, every tuple, every `@`-argument
+and every `[…]` subscript (`P[…]`, `Sum[…]`, `Q[…]`) writes a name at most once; tuples are non-empty -/
+def namesOnce : Ast → Bool
+  | .name _ => true
+  | .kw _ => true
+  | .tuple xs => !xs.isEmpty && namesOnceL xs && distinct (namesL xs)
+  | .un _ a => namesOnce a
+  | .bin .matmul l r => namesOnce l && namesOnce r && distinct (names r)
+  | .bin .bor l r => namesOnce l && namesOnce r && distinct (names l ++ names r)
+  | .bin .band l r => namesOnce l && namesOnce r && distinct (names l ++ names r)
+  | .bin _ l r => namesOnce l && namesOnce r
+  | .call f args => namesOnce f && namesOnceL args && distinct (namesL args)
+  | .sub f i => namesOnce f && namesOnce i && distinct (names i)
+def namesOnceL : List Ast → Bool
+  | [] => true
+  | a :: as => namesOnce a && namesOnceL as
 end
 
 end PyEval
